@@ -261,6 +261,21 @@ impl FsCommand {
         let mut name = path
             .file_name()
             .expect("must be a regular file with a name");
+        // The suffix adds 25 bytes and a file name is limited to 255 bytes on most file systems:
+        // shorten long names (at a character boundary), otherwise such files cannot be processed
+        #[cfg(unix)]
+        {
+            use std::os::unix::ffi::{OsStrExt, OsStringExt};
+            const MAX_LEN: usize = 255 - 25;
+            if name.len() > MAX_LEN {
+                let bytes = name.as_bytes();
+                let mut cut = MAX_LEN;
+                while cut > 0 && (bytes[cut] & 0xC0) == 0x80 {
+                    cut -= 1;
+                }
+                name = std::ffi::OsString::from_vec(bytes[..cut].to_vec());
+            }
+        }
         name.push(".");
         name.push(
             rand::thread_rng()
